@@ -219,7 +219,10 @@ func runRoundTrip(t *testing.T, prop string, sig canon.Signal) {
 		g := gen.New(c.R, gen.DValid)
 		g.Carve = carve
 		h := &History{Script: fmt.Sprintf("near-limit(%d items, variant %d)", n, variant)}
-		h.Batches = []Batch{leanBig(sig, n, 0, variant), genBatch(g, sig, 8), leanBig(sig, n, 1, variant)}
+		// the 32,768- and 45,000-item cases also give every item an event and a link (an exemplar): two such
+		// batches on one stream bring more related-table parents in total than 16 bits can number
+		rel := n < 65535
+		h.Batches = []Batch{leanBigRel(sig, n, 0, variant, rel), genBatch(g, sig, 8), leanBigRel(sig, n, 1, variant, rel)}
 		o := DefaultOpts()
 		if variant > 0 {
 			o = RandomOpts(c.R)
@@ -275,6 +278,13 @@ func runRoundTrip(t *testing.T, prop string, sig canon.Signal) {
 // attribute table (the quantity the protocol's 16-bit ids bound). round selects fresh values, variant the
 // shape of the attributes.
 func leanBig(sig canon.Signal, n, round, variant int) Batch {
+	return leanBigRel(sig, n, round, variant, false)
+}
+
+// leanBigRel: with rel, every item also owns one event and one link (traces) or one exemplar (metrics), so
+// that the related tables have n parents per batch too - and, over the batches of one stream, more parents
+// in total than a 16-bit id could number (each batch alone stays inside the protocol's limit).
+func leanBigRel(sig canon.Signal, n, round, variant int, rel bool) Batch {
 	put := func(m pcommon.Map, i int) {
 		switch variant % 3 {
 		case 0:
@@ -296,6 +306,10 @@ func leanBig(sig canon.Signal, n, round, variant int) Batch {
 			sp.SetName("op")
 			sp.SetSpanID(pcommon.SpanID{byte(i), byte(i >> 8), byte(i >> 16), byte(round + 1)})
 			put(sp.Attributes(), i)
+			if rel {
+				sp.Events().AppendEmpty().SetName("e")
+				sp.Links().AppendEmpty().SetSpanID(pcommon.SpanID{byte(i), byte(i >> 8), 9, byte(round + 1)})
+			}
 		}
 		return TB(td)
 	case canon.Logs:
@@ -321,6 +335,9 @@ func leanBig(sig canon.Signal, n, round, variant int) Batch {
 			dp.SetIntValue(int64(i))
 			dp.SetTimestamp(pcommon.Timestamp(1_700_000_000_000_000_000 + uint64(i)))
 			put(dp.Attributes(), i)
+			if rel {
+				dp.Exemplars().AppendEmpty().SetIntValue(int64(i % 5))
+			}
 		}
 		return MB(md)
 	}
